@@ -145,13 +145,15 @@ SizeSpec(n, k) ==
       [] k = 4 -> [kind |-> "list",   sz |-> [v \in 0 .. n - 1 |-> IF v = 0 THEN {2} ELSE {}]]
       [] k = 5 -> [kind |-> "list",   sz |-> [v \in 0 .. n - 1 |-> IF v = n - 1 THEN {1} ELSE IF v = 0 THEN {3} ELSE {}]]
       [] k = 6 -> [kind |-> "list",   sz |-> [v \in 0 .. n - 1 |-> IF v % 2 = 0 THEN {2} ELSE {}]]
+      [] k = 7 -> [kind |-> "list",   sz |-> [v \in 0 .. n - 1 |-> IF v = 0 THEN {2} ELSE {3}]]          \* no hole, sizes differ
+      [] k = 8 -> [kind |-> "list",   sz |-> [v \in 0 .. n - 1 |-> {1 + (v % 3)}]]                       \* no hole, sizes differ
 SzJson(n, sz) == [v \in 1 .. n |-> IF sz[v - 1] = {} THEN -1 ELSE CHOOSE x \in sz[v - 1] : TRUE]
 GroupBase == SmallGraphs(IF Quick THEN 3 ELSE 4) \o
              << GraphObj("path4", PathG(4)), GraphObj("cycle4", CycleG(4)), GraphObj("star4", StarG(4)),
                 GraphObj("path5", PathG(5)), GraphObj("cycle5", CycleG(5)),
                 GraphObj("digon+tail", G(3, <<<<0, 1>>, <<0, 1>>, <<1, 2>>>>)) >> \o
              Grids(IF Quick THEN {<<1, 1>>, <<1, 3>>, <<2, 2>>, <<2, 3>>} ELSE {<<1, 1>>, <<1, 2>>, <<1, 3>>, <<3, 1>>, <<2, 2>>, <<2, 3>>, <<3, 2>>})
-GroupObjs == LET q == SetToSeq({<<i, k>> : i \in DOMAIN GroupBase, k \in 0 .. 6})
+GroupObjs == LET q == SetToSeq({<<i, k>> : i \in DOMAIN GroupBase, k \in 0 .. 8})
              IN  [j \in DOMAIN q |-> [base |-> GroupBase[q[j][1]], k |-> q[j][2]]]
 GroupRec(o) ==
     LET g == o.base.graph  spec == SizeSpec(g.n, o.k)
@@ -170,7 +172,7 @@ BorderBase == SmallGraphs(IF Quick THEN 3 ELSE 4) \o
               (LET q == SetToSeq(IF Quick THEN {<<1, 1>>, <<1, 3>>, <<2, 2>>, <<2, 3>>}
                                  ELSE {<<1, 1>>, <<1, 2>>, <<1, 3>>, <<3, 1>>, <<2, 2>>, <<2, 3>>, <<3, 2>>, <<3, 3>>})
                IN [i \in DOMAIN q |-> InnerObj(q[i][1], q[i][2])])
-BorderObjs == LET q == SetToSeq({<<i, k>> : i \in DOMAIN BorderBase, k \in {0, 1, 2, 4, 5, 6}})
+BorderObjs == LET q == SetToSeq({<<i, k>> : i \in DOMAIN BorderBase, k \in {0, 1, 2, 4, 5, 6, 7, 8}})
               IN  [j \in DOMAIN q |-> [base |-> BorderBase[q[j][1]], k |-> q[j][2]]]
 BorderRec(o) ==
     LET g == o.base.graph  m == Len(g.edges)  spec == SizeSpec(g.n, o.k) IN
